@@ -12,21 +12,36 @@ open Sfs Sfs.C07
 theorem prefix_rejected (shape bits bytes : List Nat) (hwf : WfSpectrum shape bits)
     (hw : writeNpy shape bits = .ok bytes) (n : Nat) (hn : n < bytes.length) :
     ∃ e, readNpy (bytes.take n) = .error e := by
-  sorry
+  obtain ⟨hne, hb, hsz, _⟩ := hwf
+  obtain ⟨hd, hh, rfl⟩ := writeNpy_eq_ok shape bits bytes hw
+  obtain ⟨L, pad, rfl, hL, _, _, hlt⟩ := npyHeader_layout shape hd hh
+  exact readNpy_take_written shape bits hne hb L pad hL hlt hsz n hn
 
 /-- extension_rejected: a valid file followed by any non-empty sequence of extra bytes is rejected (a partial value, or
     more values than the shape declares). -/
 theorem extension_rejected (shape bits bytes extra : List Nat) (hwf : WfSpectrum shape bits)
     (hw : writeNpy shape bits = .ok bytes) (hne : extra ≠ []) :
     ∃ e, readNpy (bytes ++ extra) = .error e := by
-  sorry
+  obtain ⟨hne', hb, hsz, _⟩ := hwf
+  obtain ⟨hd, hh, rfl⟩ := writeNpy_eq_ok shape bits bytes hw
+  obtain ⟨L, pad, rfl, hL, _, _, hlt⟩ := npyHeader_layout shape hd hh
+  rw [List.append_assoc _ _ extra]
+  refine readNpy_written_bad_body shape hne' hb L pad hL hlt bits.length hsz _ ?_
+  have : 0 < extra.length := List.length_pos_iff.mpr hne
+  rw [List.length_append, flatten_leBytes8_length]; omega
 
 /-- The same through format auto-detection (what `view`, `fold` and `stat` call). -/
 theorem damaged_npy_rejected (shape bits bytes : List Nat) (hwf : WfSpectrum shape bits)
     (hw : writeNpy shape bits = .ok bytes) :
     (∀ n, n < bytes.length → ∃ e, readSpectrum (bytes.take n) = .error e) ∧
     (∀ extra, extra ≠ [] → ∃ e, readSpectrum (bytes ++ extra) = .error e) := by
-  sorry
+  obtain ⟨t, ht⟩ := writeNpy_magic shape bits bytes hw
+  constructor
+  · intro n hn
+    exact readSpectrum_error_of_readNpy _ (ht ▸ npyMagic_take_head t n) (prefix_rejected shape bits bytes hwf hw n hn)
+  · intro extra hne
+    exact readSpectrum_error_of_readNpy _ (ht ▸ npyMagic_append_head t extra)
+      (extension_rejected shape bits bytes extra hwf hw hne)
 
 /-! non-vacuity: a 2x3 file; its prefix at a value boundary and a one-value extension are both rejected. -/
 example : (readNpy (((writeNpy [2, 3] [1, 2, 3, 4, 5, 6]).toOption.getD []).take (128 + 40))).toOption = none ∧
